@@ -47,7 +47,7 @@ RULE = ("worlds: generated periodic structures (orthorhombic; a separate triclin
         "copies (cube rotations, wrapped across the boundary, one optional copy perturbed by 0.07 A so that --atol 0.1 vs "
         "default changes the result) of a 3-4 atom pattern, written as .lmpdat/.cif/.cml (+--extract-uc) inputs, patterns "
         "as .cml/.lmpdat, outputs .lmpdat/.cif; option rows: PAIRWISE-EXHAUSTIVE covering array over atol{default,0.1} x "
-        "-p{default,0,0.5,1} x hints{none,(0,1,2),(2,0,1),(0,-,-)} x replicate{none,2 1 1,1 2 2} x mic{none,1x1x1,2x..} x "
+        "-p{default,0,0.5,1,0.25,1.5} x hints{none,(0,1,2),(2,0,1),(0,-,-)} x replicate{none,2 1 1,1 2 2} x mic{none,1x1x1,2x..,exact multiple,0,negative,tiny} x "
         "chargefile{no,yes} x pp{off,on} x mode{none,find,find+replace,replace-without-find} x input format x pattern "
         "format x output format; plus streams: docs examples (uio66), ASE in/out + dump file, no-cell rejections, "
         "--framework-element (known finding); every case also feeds the execution tie and the argument-vector tie, plus 200 "
@@ -386,10 +386,10 @@ def argv(o, T):
 
 FACTORS = {
     "atol": [None, "0.1"],
-    "p": [None, "0", "0.5", "1"],
+    "p": [None, "0", "0.5", "1", "0.25", "1.5"],
     "hints": ["none", "012", "201", "0--"],
     "replicate": [None, [2, 1, 1], [1, 2, 2]],
-    "mic": [None, "small", "big", "exact"],
+    "mic": [None, "small", "big", "exact", "zero", "negative", "tiny"],
     "q": [False, True],
     "pp": [False, True],
     "mode": ["none", "find", "replace", "replace_only"],
@@ -462,6 +462,12 @@ def opts_of_row(row, world):
         o["mic"] = core.q(float(min(diag) / 2 - Fraction(1, 2)))
     elif row["mic"] == "big":
         o["mic"] = core.q(float(max(diag) / 2 + Fraction(1, 4)))
+    elif row["mic"] == "zero":
+        o["mic"] = core.q(0.0)                                  # satisfied by the structure as it is: factors 1, 1, 1
+    elif row["mic"] == "negative":
+        o["mic"] = core.q(-3.5)
+    elif row["mic"] == "tiny":
+        o["mic"] = core.q(1.0 / 64)
     elif row["mic"] == "exact":
         # 2*mic is EXACTLY the largest cell edge: the documented factor there is ceil(1.0) = 1 (boundary of the ceiling)
         o["mic"] = core.q(float(max(diag) / 2))
@@ -852,13 +858,14 @@ def normalise(events, o, T, ortho, chargevals):
 # ====================================================================== the two oracles (independent of the model)
 
 def spec_mic_dims(mic, cell):
-    """the documented minimum-image factors, exactly: least n with n*a_i >= 2*mic.  Returns (dims, min distance of
-    2*mic/a_i from a non-attained integer) — the latter is the float-evaluation margin"""
+    """the documented minimum-image factors, exactly: the least n >= 1 with n*a_i >= 2*mic (at least one copy in every
+    direction; a cutoff of zero or below needs no replication).  Returns (dims, min distance of 2*mic/a_i from a
+    non-attained integer) — the latter is the float-evaluation margin"""
     dims, margin = [], 1.0
     for i in range(3):
         x = 2 * Fraction(mic) / Fraction(cell[i][i])
         d = math.ceil(x)
-        dims.append(d)
+        dims.append(max(1, d))
         if x != d:
             margin = min(margin, float(min(x - math.floor(x), d - x)))
     return dims, margin
@@ -903,7 +910,7 @@ def oracle_trace(o, calls, events, failed_early):
                 return "minimum-image replication applied to a non-orthorhombic / missing cell"
             want, margin = spec_mic_dims(fl(o["mic"]), cell)
             if margin > 1e-7 and calls[m[0]]["args"]["dims"] != want:
-                return "--mic %s on cell diagonal %s replicates by %s, documented ceil(2*mic/a) = %s" % (
+                return "--mic %s on cell diagonal %s replicates by %s, documented max(1, ceil(2*mic/a)) = %s" % (
                     fl(o["mic"]), [cell[i][i] for i in range(3)], calls[m[0]]["args"]["dims"], want)
         elif "micSkippedNotOrtho" not in f and not failed_early:
             return "--mic given but neither a minimum-image replication nor the not-orthorhombic warning happened"
@@ -1224,30 +1231,52 @@ def structure_from_lmpdat(path):
     return out
 
 
+def structure_from_mol(path):
+    """RASPA .mol as written by save_raspa_mol: `index x y z element charge 0 0` lines, then the cell lengths and angles"""
+    import numpy as np
+    lines = open(path).read().split("\n")
+    n = int(lines[3].split()[0])
+    rows = [l.split() for l in lines[4:4 + n]]
+    out = {"elems": [w[4] for w in rows], "charges": [float(w[5]) for w in rows],
+           "cart": np.array([[float(w[1]), float(w[2]), float(w[3])] for w in rows]).reshape(-1, 3), "cell": None, "terms": {}}
+    k = next((i for i, l in enumerate(lines) if "Fundcell_Info" in l), None)
+    if k is not None:
+        a, b, c = [float(v) for v in lines[k + 1].split()]
+        al, be, ga = [np.radians(float(v)) for v in lines[k + 2].split()]
+        bx, by = b * np.cos(ga), b * np.sin(ga)
+        cx = c * np.cos(be)
+        cy = c * (np.cos(al) - np.cos(be) * np.cos(ga)) / np.sin(ga)
+        out["cell"] = np.array([[a, 0, 0], [bx, by, 0], [cx, cy, np.sqrt(max(c * c - cx * cx - cy * cy, 0.0))]])
+    return out
+
+
 def oracle_written(path, mem):
     """the property itself: the file the command line wrote, read back by a reader that shares nothing with mofun's
     writers, describes the structure the API route holds in memory — elements, charges, lattice (lengths and angles:
     the formats fix the orientation), positions (fractional; modulo 1 for CIF), bonds by atom.  None or text."""
     import numpy as np
     sfx = suffix(path)
-    if sfx not in (".cif", ".lmpdat"):
+    if sfx not in (".cif", ".lmpdat", ".mol"):
         return None
     try:
-        got = structure_from_cif(path) if sfx == ".cif" else structure_from_lmpdat(path)
+        got = structure_from_cif(path) if sfx == ".cif" else structure_from_lmpdat(path) if sfx == ".lmpdat" \
+            else structure_from_mol(path)
     except Exception as e:
         return "the written %s file cannot be read back by an independent reader: %r" % (sfx, e)
     els = [mem["types"]["elem"][r["ty"]] for r in mem["atoms"]]
     if got["elems"] is None or list(got["elems"]) != els:
         return "elements in the file %s differ from the structure's %s" % (list(got["elems"] or [])[:12], els[:12])
     pos = np.array([[fl(v) for v in r["pos"]] for r in mem["atoms"]]).reshape(-1, 3)
-    ptol = 2e-4 if sfx == ".cif" else 2e-6
+    ptol = 2e-4 if sfx == ".cif" else 2e-6 if sfx == ".lmpdat" else 1e-4 / 5
     if mem["cell"] is not None:
         c = np.array([[fl(v) for v in row] for row in mem["cell"]])
         if got["cell"] is None:
             return "the structure has a unit cell, the file has none"
         G, Gf = c.dot(c.T), got["cell"].dot(got["cell"].T)
-        if np.abs(G - Gf).max() > 1e-3 * max(1.0, np.abs(G).max()) * (1.0 if sfx == ".cif" else 1e-2):
-            ang = lambda M: [float(np.degrees(np.arccos(M[i][j] / np.sqrt(M[i][i] * M[j][j])))) for i, j in ((1, 2), (0, 2), (0, 1))]
+        if np.abs(G - Gf).max() > 1e-3 * max(1.0, np.abs(G).max()) * (1e-2 if sfx == ".lmpdat" else 1.0):
+            def ang(M):
+                with np.errstate(all="ignore"):
+                    return [float(np.degrees(np.arccos(M[i][j] / np.sqrt(M[i][i] * M[j][j])))) for i, j in ((1, 2), (0, 2), (0, 1))]
             return ("the lattice in the file (lengths %s, alpha/beta/gamma %s) is not the structure's (lengths %s, angles %s)"
                     % ([round(float(np.sqrt(Gf[i][i])), 5) for i in range(3)], [round(a, 3) for a in ang(Gf)],
                        [round(float(np.sqrt(G[i][i])), 5) for i in range(3)], [round(a, 3) for a in ang(G)]))
@@ -1271,6 +1300,8 @@ def oracle_written(path, mem):
             return "charges in the file differ from the structure's"
     # bonds (and, for CIF, angles / torsions) by atom
     names = {"bond": "bond", "angle": "angle", "torsion": "dihedral"}
+    if sfx == ".mol":
+        return None                      # the format carries no bonds
     if sfx == ".cif":
         labels = list(got["labels"])
         dup = sorted({l for l in labels if labels.count(l) > 1})
@@ -1414,6 +1445,8 @@ def exec_err_kind(exc):
         return "reject:assert"
     if type(exc).__name__ == "AtomsShouldNotBeDeletedTwice":
         return "overlap"
+    if isinstance(exc, ValueError) and "Sample larger than population or is negative" in str(exc):
+        return "reject:sample"
     return err_kind(exc)
 
 
@@ -1538,14 +1571,26 @@ LONG = {"find": ["-f", "--find"], "replace": ["-r", "--replace"], "fraction": ["
 def num_text(rng, qv, integer=False):
     v = Fraction(qv)
     if integer:
-        return rng.choice([str(int(v)), "%+d" % int(v) if v >= 0 else str(int(v)), "0%d" % int(v) if v >= 0 else str(int(v))])
+        t = rng.choice([str(int(v)), "%+d" % int(v) if v >= 0 else str(int(v)), "0%d" % int(v) if v >= 0 else str(int(v))])
+        if rng.random() < 0.15:
+            t = rng.choice([" " + t, t + " ", "\t" + t + "\n"])
+        if rng.random() < 0.1 and abs(int(v)) >= 10:
+            t = t[:-1] + "_" + t[-1]
+        return t
     x = float(v)
     forms = [repr(x), "%.6f" % x, "%e" % x, "%g" % x]
     if x == int(x):
         forms += [str(int(x)), "%d." % int(x)]
     if 0 < abs(x) < 1:
         forms.append(repr(x).replace("0.", ".", 1))
-    return rng.choice(forms)
+    t = rng.choice(forms)
+    if rng.random() < 0.15:
+        t = rng.choice([" " + t, t + " ", " " + t + "\n"])
+    if rng.random() < 0.15:
+        m = re.search(r"\d\d", t)
+        if m:
+            t = t[:m.start() + 1] + "_" + t[m.start() + 1:]        # python accepts `_` between two digits
+    return t
 
 
 def spell(rng, o, T):
@@ -1607,9 +1652,9 @@ def broken(rng, groups):
     elif kind == "flag-value":
         g.insert(at, ("opt", ["--pp=" + rng.choice(["1", "true", ""])]))
     elif kind == "bad-float":
-        g.insert(at, ("opt", [rng.choice(["--atol", "--mic", "-p"]), rng.choice(["abc", "1,5", "0.1.2", "e5", "--", "1e", ""])]))
+        g.insert(at, ("opt", [rng.choice(["--atol", "--mic", "-p"]), rng.choice(["abc", "1,5", "0.1.2", "e5", "--", "1e", "", "1__0", "_1", "1_", "1_.5", "1 0"])]))
     elif kind == "bad-int":
-        g.insert(at, ("opt", [rng.choice(["-ap1", "-ap2", "-op"]), rng.choice(["1.5", "x", "1e2", "", "0x1"])]))
+        g.insert(at, ("opt", [rng.choice(["-ap1", "-ap2", "-op"]), rng.choice(["1.5", "x", "1e2", "", "0x1", "1__0", "_1", "1_", "1 0"])]))
     elif kind == "missing-arg":
         pos = [i for i, x in enumerate(g) if x[0] == "pos"]
         for i in sorted(rng.sample(pos, min(len(pos), rng.randint(1, 2))), reverse=True):
@@ -1924,6 +1969,19 @@ def extra_cases(ctx):
         o = opts_of_row(row, w3)
         o["extract_uc"] = None
         out.append((w3, o, rng.randint(0, 10 ** 6), "nocell"))
+        if k == 0:
+            # the same conversion of a structure without a cell, written as CIF (Cartesian coordinates) and as .mol
+            for ext in ("cif", "mol"):
+                o2 = dict(o, output="$T/out." + ext)
+                out.append((w3, o2, rng.randint(0, 10 ** 6), "nocell"))
+    # RASPA .mol output (orthorhombic cells only), read back by the check's own reader; a fraction the sampler refuses
+    w4 = gen_world(rng, "ortho", rng.choice(["lmpdat", "cif"]), "cml", "lmpdat")
+    for k, mode in enumerate(("replace", "none", "replace")):
+        row = {"atol": None, "p": [None, None, "-0.5"][k], "hints": "none", "replicate": rng.choice([None, [2, 1, 1]]), "mic": [None, "tiny", None][k],
+               "q": k == 0, "pp": False, "mode": mode}
+        o = opts_of_row(row, w4)
+        o["output"] = "$T/out.mol"
+        out.append((w4, o, rng.randint(0, 10 ** 6), "mol-output"))
     return out
 
 
